@@ -257,3 +257,25 @@ func (node *Node) VerifC10ChainCanProposeSnapshot(all []*CNode, id crypto.Hash, 
 func (node *Node) VerifC10ListWorkingAcceptedNodes(timestamp uint64) []*CNode {
 	return node.ListWorkingAcceptedNodes(timestamp)
 }
+
+// ---- warm verification cache (C10) ------------------------------------------
+
+// VerifC10LeaderVerify is the check the leader runs in cosiHandleResponse once
+// every response is in: the certificate against the key vector and the
+// NON-final threshold of the snapshot's timestamp, through the node's
+// verification cache.
+func (chain *Chain) VerifC10LeaderVerify(s *common.Snapshot) ([]crypto.Hash, bool) {
+	cids, publics := chain.ConsensusKeys(s.RoundNumber, s.Timestamp)
+	base := chain.node.ConsensusThreshold(s.Timestamp, false)
+	return chain.node.cacheVerifyCosi(s.Hash, s.Signature, cids, publics, base)
+}
+
+// VerifC10CacheVerifyCosi reaches cacheVerifyCosi with a caller-chosen threshold
+// over the chain's key vector.
+func (chain *Chain) VerifC10CacheVerifyCosi(s *common.Snapshot, threshold int) ([]crypto.Hash, bool) {
+	cids, publics := chain.ConsensusKeys(s.RoundNumber, s.Timestamp)
+	return chain.node.cacheVerifyCosi(s.Hash, s.Signature, cids, publics, threshold)
+}
+
+// VerifC10CacheWait blocks until buffered cache writes are visible.
+func (node *Node) VerifC10CacheWait() { node.cacheStore.Wait() }
